@@ -69,6 +69,7 @@ type vnet struct {
 	item   [32]byte
 	isTrx  bool
 	adj    [][]int
+	seenAt   map[int]bool // nodes that have handled a copy of the tracked item without rejecting it
 	badEntry string
 	silent bool                      // warm-up item: no trace lines
 	old    map[int][]*pb.Gossiper    // genuine entries honest nodes signed for the warm-up item, by named node
@@ -105,7 +106,7 @@ func (s *netStub) GetVertex(ctx context.Context, in *pb.SignedHash, _ ...grpc.Ca
 func newVnet(c *Ctx, n int, adj [][]int, honest []bool, isTrx bool) *vnet {
 	w := NewWorld(c)
 	w.quiet = true
-	v := &vnet{c: c, w: w, honest: honest, isTrx: isTrx, adj: adj}
+	v := &vnet{c: c, w: w, honest: honest, isTrx: isTrx, adj: adj, seenAt: map[int]bool{}}
 	for i := 0; i < n; i++ {
 		nd := w.NewNode()
 		v.nodes = append(v.nodes, nd)
@@ -241,6 +242,24 @@ func (v *vnet) settle() string {
 	return strings.Join(out, ";")
 }
 
+// listsDst: the message carries a verifying entry of the receiving node itself
+func (v *vnet) listsDst(m qmsg) bool {
+	var gs []*pb.Gossiper
+	if m.vrx != nil {
+		gs = m.vrx.Gossipers
+	} else {
+		gs = m.trx.Gossipers
+	}
+	self := v.nodes[m.dst].w.Address()
+	for _, g := range gs {
+		if g != nil && g.Address == self && len(g.Digest) == 32 &&
+			v.w.ver.Verify(gossip.VerifGossiperMessage(g.Address, v.item), g.Signature, [32]byte(g.Digest), g.Address) == nil {
+			return true
+		}
+	}
+	return false
+}
+
 // expectSends: how many peers of the receiving node are outside the verified gossiper set of the message
 // (only used to know how long to wait for the asynchronous sends; the comparison is done by the model)
 func (v *vnet) expectSends(m qmsg) int {
@@ -296,11 +315,16 @@ func (v *vnet) deliver(k int) (string, int) {
 			_, err = v.gsp[m.dst].Server().GossipTrx(context.Background(), m.trx)
 		}
 		called := v.books[m.dst].addLeaf.Load() > before
-		// the handler hands its sends to goroutines: wait until they are gone again (independent of machine load)
-		for i := 0; i < 40000 && runtime.NumGoroutine() > g0; i++ {
-			time.Sleep(50 * time.Microsecond)
+		// the handler hands its sends to goroutines; how many there will be is known in advance when the
+		// code is right (first authentic copy at a node that is not listed): wait for exactly those, with a
+		// time-out as the fallback - independent of machine load and of other goroutines coming and going
+		_ = g0
+		if err == nil && (called || v.isTrx) && !v.seenAt[m.dst] && !v.listsDst(m) {
+			v.waitFresh(v.expectSends(m))
 		}
-		_ = called
+		if err == nil {
+			v.seenAt[m.dst] = true
+		}
 		switch {
 		case err != nil:
 			outcome = "rejected"
@@ -353,6 +377,7 @@ func (v *vnet) final() (admitted []int) {
 
 // originate creates the item at node o and lets the node's own origin loop gossip it.
 func (v *vnet) originate(o int) (vrx accountant.Vertex, ptrx *pb.Transaction) {
+	v.seenAt = map[int]bool{}
 	rich, other := v.w.wallets[0], v.w.wallets[1]
 	ctx, cancel := context.WithCancel(context.Background())
 	defer cancel()
@@ -376,7 +401,7 @@ func (v *vnet) originate(o int) (vrx accountant.Vertex, ptrx *pb.Transaction) {
 		v.item = vx.Hash
 		v.pipes[o].SendVrx(&vx)
 	}
-	v.waitFresh(1)
+	v.waitFresh(len(v.adj[o])) // the origin's own entry is the only one listed: one message per peer
 	v.line("GORIGIN %d | %s", o, v.settle())
 	return
 }
@@ -706,12 +731,10 @@ func init() {
 						}
 					}()
 				}
-				g0 := runtime.NumGoroutine()
 				close(start)
 				wg.Wait()
-				for i := 0; i < 40000 && runtime.NumGoroutine() > g0-8; i++ {
-					time.Sleep(50 * time.Microsecond)
-				}
+				v.waitFresh(2)                   // one copy is processed: node 1 forwards to its two unlisted peers
+				time.Sleep(3 * time.Millisecond) // a second processing (the defect) would add more shortly after
 				v.settle()
 				to2 := 0
 				for _, q := range v.queue {
